@@ -36,6 +36,40 @@ class HistEngine:
     def extra_overlay(self, scratch):
         return None
 
+    def extra_obligations(self, pid, scratch, known):
+        """Obligations regenerated from the source on every run by the lock-table translator (engine `locks`):
+        the critical sections the model treats as atomic steps really are single critical sections in the code
+        (atomicity groups / add-only counters protecting this property); for C06 also the interleaving half."""
+        ev, ok, logs = {}, True, []
+        try:
+            import eng_locks
+        except Exception:
+            return True, "", None
+        locks_scratch = os.path.join(scratch, "locks")
+        if hasattr(eng_locks, "atomicity_check"):
+            try:
+                res = eng_locks.atomicity_check(locks_scratch, known)
+                if pid in res:
+                    aok, rows, aev = res[pid]
+                    ev["atomicity"] = aev
+                    if not aok:
+                        ok = False
+                        logs.append("atomicity group / counter rows fail: " + str(rows)[:1500])
+            except Exception as ex:
+                ok = False
+                logs.append("atomicity analysis failed: %r" % ex)
+        if pid == "C06":
+            try:
+                iok, fail, iev = eng_locks.interleaving_check(locks_scratch, known)
+                ev["interleaving"] = iev
+                if not iok:
+                    ok = False
+                    logs.append("; ".join(eng_locks.row_text(r) if isinstance(r, dict) else str(r) for r in fail[:5]) or iev.get("error", ""))
+            except Exception as ex:
+                ok = False
+                logs.append("lock-table analysis failed: %r" % ex)
+        return ok, " | ".join(logs), (ev or None)
+
     def run_impl(self, scratch, env, tag="t", timeout=3000):
         trace = os.path.join(scratch, tag + ".trace")
         e = dict(env)
@@ -197,19 +231,6 @@ class PoolEngine(HistEngine):
            "after a fixed prelude for 3 configurations; "
            "distinct by hash of the operation list; ")
     props = {}
-
-    def extra_obligations(self, pid, scratch, known):
-        """C06, interleaving half: no self-deadlock / lock-order cycle / blocking while holding a lock,
-        decided by Coq (vm_compute instance theorems) on the lock table the translator regenerates
-        from the working tree (engine `locks`)."""
-        if pid != "C06":
-            return True, "", None
-        try:
-            import eng_locks
-            ok, fail, ev = eng_locks.interleaving_check(os.path.join(scratch, "locks"), known)
-        except Exception as ex:
-            return False, "lock-table analysis failed: %r" % ex, {"error": repr(ex)}
-        return ok, "; ".join(eng_locks.row_text(r) if isinstance(r, dict) else str(r) for r in fail[:5]) or ev.get("error", ""), ev
 
     def extra_overlay(self, scratch):
         """line-preserving copies of gcp_balancer.go / gcp_picker.go with time.Now() -> verifNow()"""
